@@ -5,6 +5,7 @@ import NutilsVerif.Proofs.C11Alg
 import NutilsVerif.Proofs.C11Simplex
 import NutilsVerif.Proofs.C11Square
 import NutilsVerif.Proofs.C11Struct
+import NutilsVerif.Proofs.C11Axes
 /-!
 # C11 — property theorems
 
@@ -167,6 +168,66 @@ theorem structured_refine_roundtrip (ind : List Int) :
     digitsPos (ind.map fun i => Int.fmod i 2) < 2 ^ ind.length ∧
     List.zipWith (fun i d => i * 2 + d) (ind.map fun i => Int.fdiv i 2) (digits ind.length (digitsPos (ind.map fun i => Int.fmod i 2))) = ind :=
   refine_level_roundtrip ind
+
+/-! ### interfaces, boundaries, slices and refinements of the axes of a `StructuredTopology`
+
+Clause "both sides of an interface ..." / "looking up the transform chain of element i ..." for the chains `StructuredTopology.interfaces`
+and `.boundary` create: along the axis every side of every facet is an element of the (sliced, refined, periodic or not) topology. -/
+
+/-- number of interfaces along an axis: one per neighbouring pair, plus the seam exactly when the axis is periodic (a slice of a
+periodic axis keeps its modulus but is not periodic: no seam). -/
+theorem structured_interface_count (d : DimAx) (h : d.ok) (b : Nat) (side : Bool) :
+    (d.intaxis b side).len = if d.isperiodic then d.len else d.len - 1 :=
+  d.intaxis_len h b side
+
+/-- **both sides of every interface are elements of the topology, and they are neighbours**: interface `r` of `intaxis(side=True)`
+(the `transforms`) is a facet of element `r` (`r-1`, or the last element for `r = 0`, on a periodic axis), the same interface of
+`intaxis(side=False)` (the `opposites`) is a facet of the next element (the first one across the seam).  For every well-formed
+axis: any start, any length, with or without modulus. -/
+theorem structured_interface_sides (d : DimAx) (h : d.ok) (b : Nat) (r : Nat) (hr : r < (d.intaxis b true).len) :
+    d.toAxis.unmap ((d.intaxis b true).map r) = some (if d.isperiodic then (if r = 0 then d.len - 1 else r - 1) else r) ∧
+    d.toAxis.unmap ((d.intaxis b false).map r) = some (if d.isperiodic then r else r + 1) :=
+  d.intaxis_sides h b r hr
+
+/-- slicing (`DimAxis.getitem`) keeps an axis well formed, makes it non-periodic, and element `r` of the slice is element
+`start + r` of the sliced axis. -/
+theorem structured_slice_axis (d : DimAx) (h : d.ok) (start stop : Nat) (h1 : start < stop) (h2 : stop ≤ d.len) :
+    (d.getitem start stop).ok ∧ (d.getitem start stop).isperiodic = false ∧ (d.getitem start stop).len = stop - start ∧
+    ∀ r, (d.getitem start stop).toAxis.map r = d.toAxis.map (start + r) :=
+  d.getitem_ok h start stop h1 h2
+
+/-- refinement (`DimAxis.refined`) keeps an axis well formed and (non-)periodic and doubles its length: with `structured_slice_axis`
+every axis reachable from `mesh.rectilinear` / `topology.line` by slicing and refining is well formed. -/
+theorem structured_refined_axis (d : DimAx) (h : d.ok) :
+    d.refined.ok ∧ d.refined.isperiodic = d.isperiodic ∧ d.refined.len = 2 * d.len :=
+  d.refined_ok h
+
+/-- **interfaces of a slice** (also of a periodic axis, also across the seam position): exactly `stop - start - 1` of them, interface
+`r` lies between elements `r` and `r + 1` of the slice — no interface refers to an element outside the slice. -/
+theorem structured_slice_interfaces (d : DimAx) (h : d.ok) (start stop : Nat) (h1 : start < stop) (h2 : stop ≤ d.len) (b : Nat)
+    (side : Bool) (r : Nat) (hr : r + 1 < stop - start) :
+    ((d.getitem start stop).intaxis b side).len = stop - start - 1 ∧
+    (d.getitem start stop).toAxis.unmap (((d.getitem start stop).intaxis b true).map r) = some r ∧
+    (d.getitem start stop).toAxis.unmap (((d.getitem start stop).intaxis b false).map r) = some (r + 1) := by
+  obtain ⟨hok, hper, hlen, _⟩ := d.getitem_ok h start stop h1 h2
+  have hl := fun s => (d.getitem start stop).intaxis_len hok b s
+  simp only [hper, Bool.false_eq_true, if_false, hlen] at hl
+  have := (d.getitem start stop).intaxis_sides hok b r (by rw [hl]; omega)
+  simp only [hper, Bool.false_eq_true, if_false] at this
+  exact ⟨hl side, this.1, this.2⟩
+
+/-- the boundary facets of a non-periodic axis belong to its first and last element; a periodic axis has no boundary. -/
+theorem structured_boundary_sides (d : DimAx) (h : d.ok) (b : Nat) :
+    if d.isperiodic then d.boundaries b = []
+    else ∃ a0 a1, d.boundaries b = [a0, a1] ∧ a0.len = 1 ∧ a1.len = 1 ∧
+      d.toAxis.unmap (a0.map 0) = some 0 ∧ d.toAxis.unmap (a1.map 0) = some (d.len - 1) :=
+  d.boundaries_sides h b
+
+-- non-vacuity: the periodic axis of `mesh.rectilinear([5], periodic=[0])`, its slice `[0:3]` and the refinement of that slice
+example : (DimAx.mk 0 5 5 true).ok := by simp [DimAx.ok]
+example : ((DimAx.mk 0 5 5 true).getitem 0 3).refined = DimAx.mk 0 6 10 false := by decide
+example : ((DimAx.mk 0 5 5 true).getitem 0 3).intaxis 0 true = { i := 0, j := 2, mod := 5, isdim := false, ibound := 0, side := true } := by decide
+example : (DimAx.mk 0 5 5 true).intaxis 0 true = { i := -1, j := 4, mod := 5, isdim := false, ibound := 0, side := true } := by decide
 
 -- non-vacuity: the refined boundary of two triangles (children of the kept edges of `UniformDerived(Index)`), chained with the
 -- edges of a third triangle refined the same way
